@@ -24,6 +24,10 @@
 (***************************************************************************)
 EXTENDS Curve, Hmac, Tags
 
+\* TLC evaluates [i \in 1..k |-> e] lazily and re-evaluates e at every application; concatenation with the
+\* empty sequence yields the same sequence as an evaluated tuple (semantically the identity)
+BpTup(f) == f \o << >>
+
 -----------------------------------------------------------------------------
 \* sizes
 RECURSIVE BpLog2(_)
@@ -43,9 +47,9 @@ BpSumS(s) == IF Len(s) = 0 THEN Zero ELSE SAdd(Head(s), BpSumS(Tail(s)))
 BpInner(a, b) == BpSumS([i \in 1..Len(a) |-> SMul(a[i], b[i])])
 \* weighted inner product  SUM_i a_i b_i mu^i
 BpWInner(a, b, mu) == BpSumS([i \in 1..Len(a) |-> SMul(SMul(a[i], b[i]), ModPow(mu, FromNat(i), N))])
-BpEven(v) == [i \in 1..(Len(v) \div 2) |-> v[2*i - 1]]           \* 0-based positions 0, 2, 4 ...
-BpOdd(v)  == [i \in 1..(Len(v) \div 2) |-> v[2*i]]               \* 0-based positions 1, 3, 5 ...
-BpVec(bytes) == [i \in 1..(Len(bytes) \div 32) |-> Mod(FromBytesBE(SubSeq(bytes, 32*(i-1) + 1, 32*i)), N)]
+BpEven(v) == BpTup([i \in 1..(Len(v) \div 2) |-> v[2*i - 1]])           \* 0-based positions 0, 2, 4 ...
+BpOdd(v)  == BpTup([i \in 1..(Len(v) \div 2) |-> v[2*i]])             \* 0-based positions 1, 3, 5 ...
+BpVec(bytes) == BpTup([i \in 1..(Len(bytes) \div 32) |-> Mod(FromBytesBE(SubSeq(bytes, 32*(i-1) + 1, 32*i)), N)])
 BpVecBytes(v) == Flatten([i \in 1..Len(v) |-> Scalar32(v[i])])
 \* rho^(2^k)
 BpRhoPow(rho, k) == ModPow(rho, Pow2(k), N)
@@ -77,8 +81,8 @@ BpGenSer(Q) == << IF IsSquare(Q[2]) THEN 10 ELSE 11 >> \o X32(Q)
 BpGensParse(bytes) ==
   IF Len(bytes) % 33 # 0 THEN << FALSE, << >> >>
   ELSE LET k  == Len(bytes) \div 33
-           ps == [i \in 1..k |-> BpGenParse(SubSeq(bytes, 33*(i-1) + 1, 33*i))]
-       IN  IF \A i \in 1..k : ps[i][1] THEN << TRUE, [i \in 1..k |-> ps[i][2]] >> ELSE << FALSE, << >> >>
+           ps == BpTup([i \in 1..k |-> BpGenParse(SubSeq(bytes, 33*(i-1) + 1, 33*i))])
+       IN  IF \A i \in 1..k : ps[i][1] THEN << TRUE, BpTup([i \in 1..k |-> ps[i][2]]) >> ELSE << FALSE, << >> >>
 BpGensSer(points) == Flatten([i \in 1..Len(points) |-> BpGenSer(points[i])])
 BpIsPrefix(a, b) == Len(a) <= Len(b) /\ SubSeq(b, 1, Len(a)) = a
 
@@ -122,16 +126,17 @@ BpVerify(T0, proof, rho, gens, glen, c, C) ==
          ll == FromBytesBE(SubSeq(proof, 65*r + 33, 65*r + 64))
      IN  /\ Lt(nn, N) /\ Lt(ll, N)
          /\ ~IsZero(rho)
-         /\ LET blk == [i \in 1..r |-> SubSeq(proof, 65*(i-1) + 1, 65*i)]
-                Xs  == [i \in 1..r |-> BpParseOne(blk[i], 0)]
-                Rs  == [i \in 1..r |-> BpParseOne(blk[i], 1)]
+         /\ LET blk == BpTup([i \in 1..r |-> SubSeq(proof, 65*(i-1) + 1, 65*i)])
+                Xs  == BpTup([i \in 1..r |-> BpParseOne(blk[i], 0)])
+                Rs  == BpTup([i \in 1..r |-> BpParseOne(blk[i], 1)])
             IN  /\ \A i \in 1..r : Xs[i][1] /\ Rs[i][1]
-                /\ LET gam == [i \in 1..r |-> BpChallenge(T0 \o SubSeq(proof, 1, 65*i))]
+                /\ LET gam == BpTup([i \in 1..r |-> BpChallenge(T0 \o SubSeq(proof, 1, 65*i))])
                        lg  == BpLog2(glen)  lh == BpLog2(hlen)
-                       sg  == [j \in 1..glen |-> SMul(nn, BpProdS([k \in 1..lg |->
-                                  IF BpBitSet(j-1, k-1) THEN gam[k] ELSE BpRhoPow(rho, k-1)]))]
-                       sh  == [j \in 1..hlen |-> SMul(ll, BpProdS([k \in 1..lh |->
-                                  IF BpBitSet(j-1, k-1) THEN gam[k] ELSE One]))]
+                       rp  == BpTup([k \in 1..lg |-> BpRhoPow(rho, k-1)])
+                       sg  == BpTup([j \in 1..glen |-> SMul(nn, BpProdS([k \in 1..lg |->
+                                  IF BpBitSet(j-1, k-1) THEN gam[k] ELSE rp[k]]))])
+                       sh  == BpTup([j \in 1..hlen |-> SMul(ll, BpProdS([k \in 1..lh |->
+                                  IF BpBitSet(j-1, k-1) THEN gam[k] ELSE One]))])
                        v   == SAdd(SMul(SMul(nn, nn), BpRhoPow(rho, lg + 1)), BpInner(c, sh))
                        lhs == PAdd(C, SumPoints([i \in 1..r |->
                                   PAdd(PMul(gam[i], Xs[i][2]), PMul(SSub(SMul(gam[i], gam[i]), One), Rs[i][2]))]))
@@ -157,9 +162,9 @@ BpVerifyFold(T, rhof, Gs, Hs, c, C, rest) ==
                  gm == BpChallenge(T1)
                  C1 == PAdd(C, PAdd(PMul(gm, X[2]), PMul(SSub(SMul(gm, gm), One), R[2])))
                  fg == Len(Gs) > 1   fh == Len(Hs) > 1
-                 G1 == IF fg THEN [i \in 1..(Len(Gs) \div 2) |-> PAdd(PMul(rhof, Gs[2*i-1]), PMul(gm, Gs[2*i]))] ELSE Gs
-                 H1 == IF fh THEN [i \in 1..(Len(Hs) \div 2) |-> PAdd(Hs[2*i-1], PMul(gm, Hs[2*i]))] ELSE Hs
-                 c1 == IF fh THEN [i \in 1..(Len(c) \div 2) |-> SAdd(c[2*i-1], SMul(gm, c[2*i]))] ELSE c
+                 G1 == IF fg THEN BpTup([i \in 1..(Len(Gs) \div 2) |-> PAdd(PMul(rhof, Gs[2*i-1]), PMul(gm, Gs[2*i]))]) ELSE Gs
+                 H1 == IF fh THEN BpTup([i \in 1..(Len(Hs) \div 2) |-> PAdd(Hs[2*i-1], PMul(gm, Hs[2*i]))]) ELSE Hs
+                 c1 == IF fh THEN BpTup([i \in 1..(Len(c) \div 2) |-> SAdd(c[2*i-1], SMul(gm, c[2*i]))]) ELSE c
              IN  BpVerifyFold(T1, IF fg THEN SMul(rhof, rhof) ELSE rhof, G1, H1, c1, C1, SubSeq(rest, 66, Len(rest)))
 BpVerifyByFolding(T0, proof, rho, gens, glen, c, C) ==
   /\ glen > 0 /\ Len(c) > 0 /\ Len(gens) = glen + Len(c) /\ BpIsPow2(glen) /\ BpIsPow2(Len(c)) /\ ~IsZero(rho)
@@ -196,11 +201,11 @@ BpProveRounds(T, rhof, muf, Gs, Hs, n, l, c, acc) ==
            blk == BpSerTwo(X, R)
            T1 == T \o blk
            gm == BpChallenge(T1)
-           n1 == IF fg THEN [i \in 1..Len(ne) |-> SAdd(SMul(ne[i], rinv), SMul(no[i], gm))] ELSE n
-           G1 == IF fg THEN [i \in 1..Len(Ge) |-> PAdd(PMul(rhof, Ge[i]), PMul(gm, Go[i]))] ELSE Gs
-           l1 == IF fh THEN [i \in 1..Len(le) |-> SAdd(le[i], SMul(gm, lo[i]))] ELSE l
-           c1 == IF fh THEN [i \in 1..Len(ce) |-> SAdd(ce[i], SMul(gm, co[i]))] ELSE c
-           H1 == IF fh THEN [i \in 1..Len(He) |-> PAdd(He[i], PMul(gm, Ho[i]))] ELSE Hs
+           n1 == IF fg THEN BpTup([i \in 1..Len(ne) |-> SAdd(SMul(ne[i], rinv), SMul(no[i], gm))]) ELSE n
+           G1 == IF fg THEN BpTup([i \in 1..Len(Ge) |-> PAdd(PMul(rhof, Ge[i]), PMul(gm, Go[i]))]) ELSE Gs
+           l1 == IF fh THEN BpTup([i \in 1..Len(le) |-> SAdd(le[i], SMul(gm, lo[i]))]) ELSE l
+           c1 == IF fh THEN BpTup([i \in 1..Len(ce) |-> SAdd(ce[i], SMul(gm, co[i]))]) ELSE c
+           H1 == IF fh THEN BpTup([i \in 1..Len(He) |-> PAdd(He[i], PMul(gm, Ho[i]))]) ELSE Hs
        IN  BpProveRounds(T1, muf, musq, G1, H1, n1, l1, c1, acc \o blk)
 \* gens = G_vec \o H_vec with |G_vec| = |n|, |H_vec| = |l| = |c|, all powers of two
 BpProve(T0, rho, gens, n, l, c) ==
